@@ -97,7 +97,7 @@ var c16DBSeq int64
 func TestVerif_C16_state(t *testing.T) {
 	r := verifmc.NewReport("C16", "blockstate-best-block", "model_checking")
 	defer r.Write()
-	nFull := verifmc.Pick(4, 5)
+	nFull := verifmc.Pick(5, 5)
 	nMax := verifmc.Pick(5, 6)
 	reps := verifmc.Pick(2, 3)
 	r.Rule = fmt.Sprintf("every parent vector with n<=%d nodes x every primary/secondary marking x arrival index per block in {t0,t1} (n<=%d: full product; larger: all-equal and the two alternations) x every parent-first insertion order, %d repetitions, blocks added with BlockState.AddBlockWithArrivalTime on a fresh BlockState; BestBlockHash, BestBlockNumber and BestBlockHeader after every addition compared with the rule of the statement on a parent map", nMax, nFull, reps)
